@@ -27,7 +27,8 @@ impl Block {
         let mut result: Vec<Dependency> = vec![];
 
         for statement in &self.0 {
-            'dependency_loop: for mut dependency in statement.net_dependencies() {
+            // (`dependencies`, not `net_dependencies`: a declaration does not supply its own initializer)
+            'dependency_loop: for mut dependency in statement.dependencies() {
                 for supply in &supplied {
                     if supply
                         .eq_allow_callbacks(&dependency)
